@@ -83,6 +83,9 @@ func ParseConfigFile(filepath string) (Config, base.LogSchema, ConfigStats, erro
 		return conf, schema, stats, err
 	}
 
+	if conf.Orchestration.Value == nil {
+		return conf, schema, stats, fmt.Errorf("orchestration is undefined")
+	}
 	var orcKeys []string
 	keys, err := conf.Orchestration.Value.VerifyConfig(schema)
 	if err != nil {
@@ -101,6 +104,9 @@ func ParseConfigFile(filepath string) (Config, base.LogSchema, ConfigStats, erro
 		return conf, schema, stats, err
 	}
 
+	if len(conf.OutputBuffersPairs) == 0 {
+		return conf, schema, stats, fmt.Errorf("outputBufferPairs is empty")
+	}
 	nameDuplicationCheckMap := make(map[string]struct{}, len(conf.OutputBuffersPairs))
 	for _, pair := range conf.OutputBuffersPairs {
 		if _, ok := nameDuplicationCheckMap[pair.Name]; ok {
